@@ -335,6 +335,28 @@ def feature_write_rule(ck, P, rule="R-FEATURE-WRITE"):
             if n.get("k") == "struct" and n.get("q") == A and not inside:
                 ck.violation(rule, b["q"] + "|literal", "VectorTileFeature is constructed outside its impl", ir.loc(n))
     ck.ok(rule, "census", "%d field writes on VectorTileFeature examined: id/geom_type/geom_data are only written inside impl VectorTileFeature" % n_w)
+    # the id field (1) is written exactly when the feature has an id, with that id — `Some(0)` is an id, not a default to omit
+    tb = [x for x in P.bodies if x["q"].endswith("vector_tile::feature::VectorTileFeature::to_blob")]
+    if ck.anchor(rule, "VectorTileFeature::to_blob", tb, 1):
+        b = tb[0]
+        okid = False
+        why = "no write of field 1"
+        for n, parents, _ in ir.walk(b["body"]):
+            if n.get("k") == "mcall" and n.get("name") == "write_pbf_key" and ir.const_eval(n["a"][0], {}) == 1:
+                guards = [p_ for p_ in parents if p_.get("k") in ("if", "match")]
+                if len(guards) != 1 or guards[0].get("k") != "if":
+                    why = "field 1 is written under %d conditions" % len(guards)
+                    break
+                c = guards[0]["c"]
+                is_opt = c.get("k") == "letx" and (c["pat"].get("q") or "").endswith("Option::Some::{Ctor#0}") and ir.place_str(c["init"]) == "self.id"
+                bh = [x["hid"] for x in ir.pat_binds(c["pat"])] if c.get("k") == "letx" else []
+                wv = [y for y in ir.walk_nodes(guards[0]["then"]) if y.get("k") == "mcall" and y.get("name") == "write_varint"]
+                val_ok = len(wv) == 1 and ir.local_hid(wv[0]["a"][0]) in bh
+                okid = is_opt and val_ok and "else" not in guards[0]
+                why = "guard is `%s`, value from the guard's binding: %s" % (c.get("src") or ir.place_str(c.get("init", c)), val_ok)
+                break
+        ck.check(okid, rule, b["q"] + "|id-presence", "the id field is written exactly when self.id is Some(id), with that id",
+                 "the id field is not written exactly for Some(id) (%s): a feature with the explicit id 0 loses it" % why, ir.loc(b))
     # property rewrites keep the relative order of features and touch only tag_ids
     for nm in ("filter_map_properties", "map_properties"):
         b = [x for x in P.bodies if x["q"].endswith("VectorTileLayer::" + nm)]
